@@ -74,6 +74,17 @@ async fn preface_connect(ctx: &ctx::Ctx, mut tcp: TcpEnd, endpoint: &[u8]) -> Op
     Some(s)
 }
 
+/// Dials the victim, retrying while its listener is not up yet.
+async fn dial(ctx: &ctx::Ctx, net: &Net) -> Option<TcpEnd> {
+    for _ in 0..200 {
+        if let Ok(t) = net.dial_as(addr(3000), "adv") {
+            return Some(t);
+        }
+        ctx.sleep(time::Duration::milliseconds(20)).await.ok()?;
+    }
+    None
+}
+
 /// One greedy caller: opens a stream, sends the request, reads the whole response; for ever.
 async fn caller(ctx: &ctx::Ctx, q: mux::StreamQueue, reqs: Vec<Vec<u8>>, sit_ms: i64, done: Arc<Mutex<Vec<i128>>>, opened: Arc<Mutex<Vec<i128>>>, clock: ctx::ManualClock, t0: time::Instant) {
     let mut k = 0usize;
@@ -279,7 +290,7 @@ pub async fn run(seed: u64, sched: Rc<Sched>, keep_log: bool) -> (CaseResult, Ve
                 let _ = ctx.sleep(time::Duration::milliseconds(20)).await;
                 // Validator endpoint: genuine handshake as committee member 1.
                 let cs = async {
-                    let mut s = preface_connect(ctx, net2.dial_as(addr(3000), "adv").ok()?, &EP_CONSENSUS).await?;
+                    let mut s = preface_connect(ctx, dial(ctx, &net2).await?, &EP_CONSENSUS).await?;
                     let sid = node::SessionId(s.id().encode());
                     let mut m = vec![];
                     field_bytes(1, &zksync_protobuf::encode(&vb.sign_msg(sid)), &mut m);
@@ -291,7 +302,7 @@ pub async fn run(seed: u64, sched: Rc<Sched>, keep_log: bool) -> (CaseResult, Ve
                 .await;
                 // Gossip endpoint: genuine handshake as an ordinary node.
                 let gs = async {
-                    let mut s = preface_connect(ctx, net2.dial_as(addr(3000), "adv").ok()?, &EP_GOSSIP).await?;
+                    let mut s = preface_connect(ctx, dial(ctx, &net2).await?, &EP_GOSSIP).await?;
                     let sid = node::SessionId(s.id().encode());
                     let mut m = vec![];
                     field_bytes(1, &zksync_protobuf::encode(&adv_node_key.sign_msg(sid)), &mut m);
